@@ -324,8 +324,8 @@ def expand_facts(tree):
     if e is None:
         raise Unsupported("%s: the loop does not run over the selected fields" % where(q, loop))
     env = e
-    if len(loop.body) != 3:
-        raise Unsupported("%s: the loop body has %d statements, expected 3" % (where(q, loop), len(loop.body)))
+    if len(loop.body) < 3:
+        raise Unsupported("%s: the loop body has %d statements, expected at least 3" % (where(q, loop), len(loop.body)))
     e = match("V_ts = TimestampRecord(getattr(V_src, V_f.name), V_f.name)", loop.body[0], env)
     if e is None:
         raise Unsupported("%s: construction of the timestamp record has another shape" % where(q, loop.body[0]))
@@ -335,8 +335,24 @@ def expand_facts(tree):
     if i is None:
         raise Unsupported("%s: the extension of the timestamp record has another shape" % where(q, loop.body[1]))
     env = e
-    if match("yield V_out", loop.body[2], env) is None:
-        raise Unsupported("%s: the loop does not yield the extended record" % where(q, loop.body[2]))
+    # between the extension and the yield: `out.<slot> = <original>.<slot>` for reserved slots
+    import flow.record.base as _base
+    meta = []
+    for st in loop.body[2:-1]:
+        e = match("V_out.A_ = V_o.A_", _blank_attrs(st), env)
+        if e is None or not (isinstance(st, ast.Assign) and len(st.targets) == 1 and isinstance(st.targets[0], ast.Attribute)
+                             and isinstance(st.value, ast.Attribute) and st.targets[0].attr == st.value.attr):
+            raise Unsupported("%s: unrecognised statement between the extension and the yield" % where(q, st))
+        slot = st.value.attr
+        if slot not in _base.RESERVED_FIELDS or slot in meta:
+            raise Unsupported("%s: %r is not a reserved slot (or is copied twice)" % (where(q, st), slot))
+        if _original_name(fn, loop, e["V_o"], "record") is not True:
+            raise Unsupported("%s: the metadata is not copied from the original record" % where(q, st))
+        meta.append(slot)
+    # assignments to distinct reserved slots commute: list them in RESERVED_FIELDS order
+    meta.sort(key=list(_base.RESERVED_FIELDS).index)
+    if match("yield V_out", loop.body[-1], env) is None:
+        raise Unsupported("%s: the loop does not yield the extended record" % where(q, loop.body[-1]))
     # name= must be the original record's type name, bound before the loop
     nm = env["V_nm"]
     ok = False
@@ -349,7 +365,15 @@ def expand_facts(tree):
     extends_previous = not _original_name(fn, loop, env["V_base"], "record")
     if extends_previous and env["V_base"] != env["V_out"]:
         raise Unsupported("%s: the record that is extended is re-bound in the loop but not to the yielded record" % q)
-    return dict(select=sel.value, from_original=from_original, extends_previous=extends_previous)
+    return dict(select=sel.value, from_original=from_original, extends_previous=extends_previous, meta=meta)
+
+
+def _blank_attrs(st):
+    """copy of `a.x = b.y` with both attribute names replaced by A_ (the names are compared separately)"""
+    if isinstance(st, ast.Assign) and len(st.targets) == 1 and isinstance(st.targets[0], ast.Attribute) and isinstance(st.value, ast.Attribute):
+        return ast.Assign(targets=[ast.Attribute(value=st.targets[0].value, attr="A_", ctx=ast.Store())],
+                          value=ast.Attribute(value=st.value.value, attr="A_", ctx=ast.Load()), type_comment=None)
+    return st
 
 
 def group_facts(tree):
@@ -586,8 +610,9 @@ def gen_compose():
     out += "Definition gen_reserved : list (string * string) :=\n  %s.\n\n" % clist([cpair(cstr(k), cstr(v)) for k, v in reserved])
     out += "(* TimestampRecord = RecordDescriptor(%r, %r); iter_timestamped_records selects getfields(%r) and calls\n" % (ts.name, tsf, t["select"])
     out += "   TimestampRecord(<value>, <field name>) positionally *)\n"
-    out += "Definition gen_ts : tsfacts :=\n  {| ts_desc_name := %s; ts_k1 := %s; ts_t1 := %s; ts_k2 := %s; ts_t2 := %s; ts_select := %s |}.\n\n" % (
-        cstr(ts.name), cstr(tsf[0][1]), cstr(tsf[0][0]), cstr(tsf[1][1]), cstr(tsf[1][0]), cstr(t["select"]))
+    out += "Definition gen_ts : tsfacts :=\n  {| ts_desc_name := %s; ts_k1 := %s; ts_t1 := %s; ts_k2 := %s; ts_t2 := %s; ts_select := %s;\n     ts_meta := %s |}.\n\n" % (
+        cstr(ts.name), cstr(tsf[0][1]), cstr(tsf[0][0]), cstr(tsf[1][1]), cstr(tsf[1][0]), cstr(t["select"]),
+        clist([cstr(k) for k in t["meta"]]))
     out += "(* iter_timestamped_records: the loop extends the record it yielded in the previous round (re-binding) *)\n"
     out += "Definition gen_ts_extends_previous : bool := %s.\n\n" % cbool(t["extends_previous"])
     out += "(* shapes read from merge_record_descriptors, extend_record, RecordDescriptor.init_from_dict,\n"
